@@ -400,6 +400,19 @@ def shard_real(seed, idx, n):
     return res
 
 
+def shard_cli_equiv(seed, idx, n):
+    """The command line against the library call it stands for (harness/cliequiv.py): recording through in-toto-run /
+    in-toto-record with the options that matter here (exclude patterns incl. negations and directory-only ones, prefix
+    stripping, base path, dir: artifacts, time limit, verbosity)."""
+    from harness import cliequiv
+    res = core.Result()
+    rng = core.rng_for(seed, "c13", "cli_equiv", idx)
+    for _ in range(n):
+        for tool in ['run']:
+            cliequiv.equiv_case(rng, res, tool)
+    return res
+
+
 def run(tier, seed):
     shards = [(shard_corpus, ())]
     shards += [(shard_real, (seed, i, 3 if tier == "quick" else 40)) for i in range(8)]
@@ -409,6 +422,7 @@ def run(tier, seed):
             shards.append((shard_exhaustive, (n, a)))
     per = 30 if tier == "quick" else 900
     shards += [(shard_random, (seed, i, per)) for i in range(16)]
+    shards += [(shard_cli_equiv, (seed, i, 4 if tier == "quick" else 40)) for i in range(4)]
     res = core.parallel(core.call, shards)
     res.notes.append("exhaustive: all stdout schedules with <= %d polls over chunks %r" % (maxp, ALPHA))
     return res
